@@ -1,0 +1,12 @@
+//go:build verif
+
+// Thin contracts of rel helpers used by the server engine's actor loop (property C17, worker w-c17).
+package rel
+
+// (Scope).With: contract owned by w-c09 in verif_contracts_c09.go (`pure`, tags C17, C09); the actor's
+// `installed`/`notified` clauses name its result through fnresult("(rel.Scope).With", ...).
+
+//@ func NewNativeFunction(name, fn)
+//@   tags C17
+//@   assigns fresh-only
+//@   ensures result != nil
